@@ -23,6 +23,11 @@ EXTENDS Integers, Sequences, FiniteSets, TLC
 Text(s) == [t |-> "text", s |-> s]
 Super == [t |-> "super"]
 LoopVar == [t |-> "loopvar"]
+\* def: a macro and a variable defined at that place; probe: a call of that macro and a print of that variable.
+\* Generated chains have defs only in the documents of templates that extend (never executed: what a child writes outside
+\* blocks is ignored, definitions included), so a probe prints nothing.
+Def == [t |-> "def"]
+Probe == [t |-> "probe"]
 Block(name, wrap) == [t |-> "block", name |-> name, wrap |-> wrap]
 
 \* chain: tuple of levels (index 1 = L0); level: [doc |-> items, blocks |-> [names -> items]]
@@ -51,6 +56,7 @@ RenderItems(chain, k, items, cur, fuel, lv) ==
        LET here ==
          CASE it.t = "text" -> <<it.s>>
            [] it.t = "loopvar" -> <<lv>>
+           [] it.t \in {"def", "probe"} -> <<>>
            [] it.t = "super" -> IF cur.name = "" THEN <<>> ELSE RenderDefs(chain, k, cur.name, cur.below, fuel, lv)
            [] it.t = "block" ->
                 LET once(v) == RenderDefs(chain, k, it.name, DefLevels(chain, k, it.name), fuel, v) IN
